@@ -77,15 +77,16 @@ import (
 // (Run then never returns), nil messages, SetConfig(nil), Run on a Client
 // that cancelled itself.
 
-// Step operations.
+// Step operations. Every step first reads up to K responses ("after k
+// responses" is a property of every step), then acts.
 const (
-	OpRead      = "read"      // read up to N responses
+	OpRead      = "read"      // nothing more
 	OpDrain     = "drain"     // read until the target has nothing more to send for now (at most Tail responses of a generation that never ends)
 	OpPoll      = "poll"      // the subscriber sends a Poll
 	OpRound     = "round"     // drain, then Poll: the documented way to use a POLL subscription
 	OpMsg       = "msg"       // the subscriber sends Msg, a message no mode expects after the first one
-	OpSetConfig = "setconfig" // Client.SetConfig(Configs[N])
-	OpEOF       = "eof"       // the subscriber closes its sending side (Recv: io.EOF) and keeps reading
+	OpSetConfig = "setconfig" // Client.SetConfig(Configs[Cfg])
+	OpEOF       = "eof"       // the subscriber closes its sending side (Recv: io.EOF) and keeps reading (a POLL subscriber: up to N more responses, then it leaves)
 )
 
 // Modes.
@@ -97,8 +98,10 @@ const (
 
 // Step is one action of the script.
 type Step struct {
+	K   int    `json:"k,omitempty"` // responses read before the step acts
 	Op  string `json:"op"`
 	N   int    `json:"n,omitempty"`
+	Cfg int    `json:"cfg,omitempty"`
 	Msg string `json:"msg,omitempty"` // sub-stream | sub-once | sub-poll | sub-nil | empty | poll-nil
 }
 
@@ -408,6 +411,9 @@ func (x *sessExec) newGen(run int, target string) *genRec {
 			}
 			if !a.DisableSync && !b.DisableSync {
 				x.st.label("new-configuration-sync-injected-in-both")
+				if b.latestInitial() > a.latestInitial() {
+					x.st.label("new-configuration-sync-injected-in-both-latest-timestamp-later")
+				}
 			}
 		} else {
 			x.st.label("generation-from-the-same-configuration-again")
@@ -570,10 +576,12 @@ func (x *sessExec) runOne(ri int) (err error) {
 
 steps:
 	for _, step := range r.Steps {
+		if !cur.skip {
+			x.readInto(cur, s, step.K)
+		}
 		pending, receptive := s.state()
 		switch step.Op {
 		case OpRead:
-			x.readInto(cur, s, step.N)
 		case OpDrain:
 			x.readInto(cur, s, x.drainCap(cur, r.Tail))
 		case OpRound:
@@ -597,6 +605,9 @@ steps:
 			}
 			st.label("stray-poll-" + r.Mode + "-" + pos)
 			st.label("stray-message-" + pos)
+			if pending != nil && !isDone(done) {
+				st.label("stray-poll-while-the-generation-is-being-sent")
+			}
 			x.logf("stray Poll (%s)", pos)
 			s.deliver(pollMsg())
 		case OpMsg:
@@ -610,6 +621,12 @@ steps:
 				// would ever wake the sender: not generated.
 				if pending == nil || isDone(done) {
 					st.label("step-skipped-fatal-message-while-target-idle")
+					break
+				}
+				if step.Msg == "poll-nil" {
+					// a Poll arm without a Poll message inside: whether a POLL
+					// subscription takes it for a Poll is not documented
+					st.label("step-skipped-poll-without-body-on-poll-subscription")
 					break
 				}
 				st.label("fatal-message-for-poll-subscription-" + step.Msg)
@@ -634,7 +651,7 @@ steps:
 			if pending == nil {
 				when = "while-the-target-is-idle"
 			}
-			x.setConfig(step.N, when)
+			x.setConfig(step.Cfg, when)
 		case OpEOF:
 			if !receptive {
 				st.label("step-skipped-target-not-listening")
